@@ -2,9 +2,16 @@ package respgen
 
 import (
 	"strings"
+	"unicode"
 
 	"pgregory.net/rapid"
 )
+
+// printable: ASCII printable, Latin-1 letters and signs, basic Cyrillic (no CR, LF or other controls).
+var printable = &unicode.RangeTable{
+	R16:         []unicode.Range16{{Lo: 0x20, Hi: 0x7e, Stride: 1}, {Lo: 0xa1, Hi: 0xff, Stride: 1}, {Lo: 0x410, Hi: 0x44f, Stride: 1}},
+	LatinOffset: 2,
+}
 
 const tchars = "abcdefghijklmnopqrstuvwxyzABCDEFGHIJKLMNOPQRSTUVWXYZ0123456789!#$%&'*+-.^_`|~"
 
@@ -108,7 +115,7 @@ var upgradeWrong = []string{"websocket2", "websockets", "h2c", "", "web socket",
 // UpgradeFoldOnly are Upgrade values that equal "websocket" only under Unicode
 // simple case folding (KELVIN SIGN, LATIN SMALL LETTER LONG S); by ASCII
 // case-insensitive comparison they are wrong.
-var UpgradeFoldOnly = []string{"websocKet", "webſocket", "WEBſOCKET"}
+var UpgradeFoldOnly = []string{"websoc\u212aet", "web\u017focket", "WEB\u017fOC\u212aET"}
 var upgradeLists = []string{"websocket, h2c", "h2c, websocket", "websocket,websocket", "websocket,"}
 var connectionWrong = []string{"keep-alive", "close", "Upgrades", "", "Upgrad", "websocket", "Up grade", "pgrade", `"Upgrade"`, "Upgrade;", "keep-alive, close"}
 var connectionLists = []string{"keep-alive, Upgrade", "Upgrade, keep-alive", "a,Upgrade,b", "Upgrade,", "upgrade ,close", ",Upgrade"}
@@ -120,7 +127,7 @@ var extraNames = []string{"Server", "Date", "X-Powered-By", "Sec-WebSocket-Versi
 var extraValues = []string{"", "x", "gobwas", "Upgrade: websocket", "websocket", "Upgrade", "0", "5", "a=b; Path=/", "Thu, 01 Oct 2026 00:00:00 GMT", "HTTP/1.1 101 Switching Protocols", "ünïcödé", ":", "::"}
 
 // RawLines are deliberately unusual header lines (class open).
-var RawLines = []string{"NoColonHere", " folded: continuation", "\tfolded", "Upgrade websocket", "X-Foo : bar", ": empty-name", "Upgrade : websocket", " Connection: Upgrade", "X Y: z", "\r"}
+var RawLines = []string{"NoColonHere", " folded: continuation", "\tfolded", "Upgrade websocket", "X-Foo : bar", ": empty-name", "Upgrade : websocket", " Connection: Upgrade", "X Y: z"}
 
 var extBadName = []string{"=x", ";a=1", `"x-a"`, "@", "/x-a", "[x-a]", "x-a, =y", "x-a,;b", "(c) x-a", "\x80\x81", "x-a, \"q\""}
 var extBadTail = []string{";", ";;", "; =1", " b", "; a=", "; a=\"unterminated", ";a=1;", "; a = 1", "\tq", "; a=\"es\\\"c\"", "; a=b=c"}
@@ -285,7 +292,7 @@ func Gen(t *rapid.T, label string, cfg Config, o Opts) *Response {
 			}
 		}
 	}
-	if !o.ValidOnly || true {
+	{
 		// well-formed extra headers, names that do not collide with the five special ones
 		n := rapid.IntRange(0, 4).Draw(t, L("nextra")) - 1
 		for i := 0; i < n; i++ {
